@@ -668,8 +668,14 @@ class ExcelCompiler:
                         self.log.debug(f"No Orig data?: {addr}: {cell.value}")
                         continue
 
+                    previous_value = cell.value
                     cell.value = None
-                    self.evaluate(addr.address)
+                    try:
+                        self.evaluate(addr.address)
+                    except Exception:
+                        # the dependants of the cell were calculated from it
+                        cell.value = previous_value
+                        raise
 
                     if not (original_value is None or
                             cell.close_enough(original_value, tol=tolerance)):
